@@ -84,19 +84,42 @@ _WARN_THRESHOLD = int(MAX_ALLOCS * 0.8)
 # IPC stream EOS marker: continuation token (0xFFFFFFFF) + 0-length metadata
 _IPC_EOS = b"\xff\xff\xff\xff\x00\x00\x00\x00"
 
-# Overhead for IPC stream framing (schema message + EOS) added to
-# ipc.get_record_batch_size() when estimating the allocation size.
-_STREAM_OVERHEAD = 4096
-
 
 def _has_dictionary_columns(schema: pa.Schema) -> bool:
-    """Check if any top-level field uses dictionary encoding."""
+    """Check if any top-level field uses dictionary encoding.
+
+    This selects the region layout (full IPC stream vs. stripped dictionary +
+    record batch messages) on both the write and the read side, so it is part
+    of the cross-language shm contract.  Dictionaries nested inside
+    list/struct/map columns keep the full-stream layout; their dictionary
+    messages are part of that stream and are accounted for when the region is
+    sized (see ``_ipc_stream_size``).
+    """
     return any(pa.types.is_dictionary(f.type) for f in schema)
+
+
+def _ipc_stream_size(batch: pa.RecordBatch) -> int:
+    """Return the exact byte size of the IPC stream ``new_ipc_stream`` writes for *batch*.
+
+    Covers everything the writer emits: the schema message (arbitrarily large
+    for wide schemas or schema/field metadata), any dictionary messages for
+    nested dictionary columns, the record batch message and the EOS marker.
+    ``pa.MockOutputStream`` only counts bytes, so no buffer data is copied.
+    """
+    counter = pa.MockOutputStream()
+    writer = new_ipc_stream(counter, batch.schema)
+    writer.write_batch(batch)
+    writer.close()
+    return int(counter.size())
 
 
 # ---------------------------------------------------------------------------
 # _ShmSink — file-like wrapper for direct IPC writes into shared memory
 # ---------------------------------------------------------------------------
+
+
+class _ShmSinkOverflowError(OSError):
+    """A write to ``_ShmSink`` would run past the end of its allocation."""
 
 
 class _ShmSink(RawIOBase):
@@ -110,12 +133,22 @@ class _ShmSink(RawIOBase):
     requirements.
     """
 
-    def __init__(self, buf: memoryview, start: int) -> None:
-        """Initialize targeting *buf* starting at byte offset *start*."""
+    def __init__(self, buf: memoryview, start: int, limit: int | None = None) -> None:
+        """Initialize targeting *buf* starting at byte offset *start*.
+
+        Args:
+            buf: The shared memory segment's memoryview.
+            start: Absolute offset of the first byte to write.
+            limit: Maximum number of bytes that may be written (the size of
+                the allocation backing this sink).  ``None`` bounds writes by
+                the end of *buf* only.
+
+        """
         super().__init__()
         self._buf = buf
         self._pos = start
         self._start = start
+        self._end = len(buf) if limit is None else min(start + limit, len(buf))
 
     def write(self, data: bytes | bytearray | memoryview | pa.Buffer) -> int:  # type: ignore[override]  # ty: ignore[invalid-method-override]
         """Write *data* into the shared memory region."""
@@ -126,6 +159,11 @@ class _ShmSink(RawIOBase):
         else:
             mv = memoryview(data).cast("B") if data.format != "B" else data
         n = len(mv)
+        if self._pos + n > self._end:
+            # Never spill into a neighbouring allocation.
+            raise _ShmSinkOverflowError(
+                f"write of {n} bytes at offset {self._pos} exceeds the allocation ending at {self._end}"
+            )
         self._buf[self._pos : self._pos + n] = mv
         self._pos += n
         return n
@@ -431,15 +469,24 @@ class ShmSegment:
         assert shm_buf is not None  # segment still open
 
         if not _has_dictionary_columns(batch.schema):
-            # Non-dict: write IPC stream directly into SHM via _ShmSink
-            estimated = ipc.get_record_batch_size(batch) + _STREAM_OVERHEAD
-            offset = self._allocator.allocate(estimated)
+            # Non-dict: write IPC stream directly into SHM via _ShmSink.
+            # Size the allocation from the stream the writer will actually
+            # produce; ipc.get_record_batch_size() covers only the record
+            # batch message, not the schema or nested-dictionary messages.
+            size = _ipc_stream_size(batch)
+            offset = self._allocator.allocate(size)
             if offset is None:
                 return None
-            sink = _ShmSink(shm_buf, offset)
-            writer = new_ipc_stream(sink, batch.schema)
-            writer.write_batch(batch)
-            writer.close()
+            sink = _ShmSink(shm_buf, offset, size)
+            try:
+                writer = new_ipc_stream(sink, batch.schema)
+                writer.write_batch(batch)
+                writer.close()
+            except _ShmSinkOverflowError:
+                # Defence in depth: the stream did not fit its allocation.
+                # Give the region back and let the caller send the batch inline.
+                self._allocator.free(offset)
+                return None
             return offset, sink.bytes_written
 
         # Dict path: serialize to buffer, then copy
